@@ -23,6 +23,9 @@ class CardPool:
                 return s
         c = cls or R.choice(CLS)
         keys = (g.key(), g.key(), g.key())
+        if R.random() < .3:                                 # issuers share keys between the three purposes: every equality pattern
+            a, b = keys[0], keys[1]
+            keys = R.choice([(a, a, a), (a, a, b), (a, b, a), (a, b, b), (b, a, a)])
         pan = g.form(g.digits(R.choice([12, 13, 15, 16, 16, 17, 18, 18, 19])))
         psn = g.form(R.choice([None, "", "00", "07", "45", g.digits(2)]))
         s = (c, keys, pan, psn)
@@ -405,6 +408,34 @@ def C12(ctx):
                     cur = None if cl is None else g.distinct_digits(cl)
                     cases.append(op_vis_pin(g.key(), g.form(p), g.form(cur), gen="vis: pin length × current pin length"))
     ctx.exhaustive_dims.append("PIN length 4..12 × current PIN absent / length 4..12")
+    # the three operands of the VIS block (key mask 0^4||mk[4:8], PIN field 0L||digits||F.., current PIN digits||0..)
+    # coincide or cancel: two operands equal, or all three xor to zero / to a single set bit — arguments derived from
+    # one another, which independent random values never are
+    def field(pin):
+        return bytes([len(pin)]) + bytes.fromhex(pin + "F" * (14 - len(pin)))
+    for _ in range(ctx.n(200, 2000)):
+        n = R.randrange(4, 13); pin = g.digits(n); k = bytearray(g.fresh_key())
+        c = R.randrange(5)
+        if c == 0:                                          # key mask = current PIN block
+            tail = g.digits(R.randrange(1, 5)); cur = "0" * 8 + tail
+            k[4:8] = bytes.fromhex((tail + "0" * 8)[:8])
+        elif c == 1:                                        # current PIN block = PIN field on the leading bytes, rest cancels
+            extra = g.digits(R.randrange(0, 5))
+            cur = ("0%X" % n + pin)[:8] + extra
+            if not cur.isdigit():
+                cur = ("0%d" % (n % 10) + pin)[:8] + extra
+            cur = cur[:12]
+            cb = bytes.fromhex(cur + "0" * (16 - len(cur)))
+            k[4:8] = bytes(a ^ b for a, b in zip(field(pin)[4:8], cb[4:8]))
+        elif c == 2:                                        # new PIN = current PIN
+            cur = pin
+        elif c == 3:                                        # key mask = tail of the PIN field
+            cur = R.choice([None, g.digits(R.randrange(4, 13))]); k[4:8] = field(pin)[4:8]
+        else:                                               # everything cancels except one bit
+            cur = g.digits(R.randrange(4, 13))
+            cb = bytes.fromhex(cur + "0" * (16 - len(cur)))
+            k[4:8] = bytes(a ^ b for a, b in zip(field(pin)[4:8], cb[4:8])); k[4 + R.randrange(4)] ^= 1 << R.randrange(8)
+        cases.append(op_vis_pin(bytes(k), g.form(pin), g.form(cur), gen="vis: operands coincide or cancel"))
     for _ in range(ctx.n(500, 3000)):
         p = g.digits(R.choice([0, 1, 3, 13, 14, 20])) if R.random() < .6 else g.digits(6)
         cur = R.choice([None, "", g.digits(3), g.digits(13), g.digits(5)])
@@ -544,6 +575,12 @@ def C13(ctx):
         b, h = R.choice([(3, 11), (5, 7), (6, 7), (7, 6), (10, 5), (12, 5), (17, 4), (41, 3), (255, 3), (257, 2), (300, 2), (1000, 2), (65537, 1)])
         shaped.append(op_tree_sk(g.key(), R.randbytes(2), h, b, R.choice([bytes(16), R.randbytes(16)]), gen="tree shapes with other branch factors"))
     ctx.run_cases(shaped)
+    # the three keys stored on an object equal the prescribed keys (model), for every way the issuer keys can coincide
+    pool13 = CardPool(g)
+    stored = []
+    for _ in range(ctx.n(300, 3000)):
+        stored.append(cvn_case(pool13, pool13.spec(R.choice(CLS)), "keys", None, "stored keys against the model, issuer keys shared in every pattern"))
+    ctx.run_cases(stored)
     # refusals: nothing is handed back for a master key of the wrong size
     bad = []
     for _ in range(ctx.n(60, 300)):
